@@ -367,6 +367,14 @@ def _unsupported_bool_mix(draw):
                                 defaults=False).filter(
       lambda sp: len({p['kind'] for p in sp['params']}) >= 2
       and any(p['kind'] == 'BOOL' for p in sp['params'])))
+  if draw(st.booleans()):
+    # the near miss: every other parameter is a two-valued CATEGORICAL (an
+    # {adam, sgd} choice looks like a flag but is none)
+    for k, p in enumerate(spec['params']):
+      if p['kind'] != 'BOOL':
+        spec['params'][k] = {'name': p['name'], 'kind': 'CATEGORICAL',
+                             'values': draw(st.sampled_from(
+                                 [['adam', 'sgd'], ['a', 'b'], ['no', 'yes']]))}
   metrics = draw(_metrics(algo, True))
   n_pre = draw(st.integers(3, 13))
   pre = [[draw(spaces.point_in(spec)), draw(_status(len(metrics)))]
